@@ -262,9 +262,40 @@ def indep_task(task):
         finally:
             F.opcode_aliases.clear(); F.opcode_aliases.update(saved_al)
             F._contracts.clear(); F._contracts.update(saved_ct)
+    def alias_duplicates():
+        # the alias registry is a set keyed by the upper-cased alias: adding one that is active (added earlier, or built in) is an
+        # error whatever its letter case, and must leave the registry and later compilations unchanged
+        saved_al = dict(F.opcode_aliases)
+        try:
+            base = rng.choice(['VZA', 'VzB', 'vzc'])
+            builtin = rng.choice([a for a in list(saved_al)[:60] if a.isalpha()] or ['ADD'])
+            for first, second in ((base, base), (base, base.lower()), (base.lower(), base.upper()), (None, builtin), (None, builtin.lower())):
+                F.opcode_aliases.clear(); F.opcode_aliases.update(saved_al)
+                try:
+                    if first is not None:
+                        F.add_alias(first, 'OP_TRUE')
+                    before = dict(F.opcode_aliases)
+                    try:
+                        F.add_alias(second, 'OP_FALSE'); res = 'accepted'
+                    except ValueError:
+                        res = 'ValueError'
+                    except BaseException as e:
+                        res = type(e).__name__
+                    stats['alias-duplicate-adds'] += 1
+                    if res == 'accepted' or dict(F.opcode_aliases) != before:
+                        stats['direct-fail'] += 1
+                        if len(viol) < 8:
+                            viol.append(dict(what='add_alias(%r) while %r is active: %s; the alias table %s' % (second, (first or builtin).upper(), res,
+                                             'changed' if dict(F.opcode_aliases) != before else 'is unchanged'), source='add_alias(%r, ...)' % second))
+                except BaseException:
+                    pass
+        finally:
+            F.opcode_aliases.clear(); F.opcode_aliases.update(saved_al)
     for it in range(n):
         if it % 5 == 0:
             registry_dependent_compiles()
+        if it % 25 == 0:
+            alias_duplicates()
         if rng.random() < 0.5:
             ga = asmstream.AstGen(rng, 2)
             srcA = asmstream.Speller(rng).prog(ga.prog())
